@@ -230,7 +230,12 @@ def _go(ctx, beh):
     """Run the harness; a crash of the test process (panic in a goroutine of the code under test, or every goroutine of a
     bubble blocked for ever = deadlock) is a violation if it happens again, with the package's own frames on the stack."""
     def once():
-        return goenv.run_harness(ctx, PKG, "^TestVerifC04qr$", inputs=beh, timeout=2400, parallel=4, env={"VERIF_C04QR_WORKERS": 4})
+        res = goenv.run_harness(ctx, PKG, "^TestVerifC04qr$", inputs=beh, timeout=2400, parallel=4, env={"VERIF_C04QR_WORKERS": 4})
+        if res["_rc"] != 0:
+            # the test failed although it reports mismatches itself only through result.json: a panic that the testing package
+            # recovered (e.g. a bubble that could not be left)
+            raise HarnessCrash("harness test failed (rc=%d):\n%s" % (res["_rc"], res["_log"][-3000:]), res["_log"])
+        return res
 
     def sig(e):
         if not any(f in e.log for f in _OWN):
@@ -318,12 +323,15 @@ def run_part(ctx, thorough):
     div = classify_mismatches(ctx, res, "replay")
     ex = res.get("extra") or {}
     skipped = ex.get("pool_steps_not_executed_after_violation", 0) + ex.get("demux_steps_not_executed_after_violation", 0)
-    if ex.get("pool_walks_not_matched_after_retries", 0) > max(2, len(pres)):
-        raise MachineryError("too many walks whose non-deterministic choices were never matched: %s" % ex)
-    if res["distinct"] + skipped < edges_total and not ctx.violations:
-        raise MachineryError("replay executed %d distinct transitions of %d (%d steps skipped after violations)" % (res["distinct"], edges_total, skipped))
-    if not ex.get("demux_production_queue_steps") and not ctx.violations:
-        raise MachineryError("the production-size queue scenario did not run")
+    unmatched = ex.get("pool_walks_not_matched_after_retries", 0)
+    if not ctx.violations:
+        # (guards about the run itself only speak when the run found nothing: a real deviation legitimately cuts walks short)
+        if unmatched > max(2, len(pres)):
+            raise MachineryError("too many walks whose non-deterministic choices were never matched: %s" % ex)
+        if res["distinct"] + skipped < edges_total and not unmatched:
+            raise MachineryError("replay executed %d distinct transitions of %d (%d steps skipped after violations)" % (res["distinct"], edges_total, skipped))
+        if not ex.get("demux_production_queue_steps"):
+            raise MachineryError("the production-size queue scenario did not run")
     states = sum(r[1] for r in xres) + sum(r[2] for r in pres)
     trans = sum(r[2] for r in xres) + sum(r[3] for r in pres)
     summary = ("exhaustive %s; printed+replayed %s = %d transitions, %d walks, %d steps executed (%d distinct transitions) on a real ConnManager; "
